@@ -13,6 +13,45 @@ Origin-tagged bookkeeping per node:
 namespace PydraModel.WfState.Class
 open PydraModel.WfState Lean
 
+/-- Shape of a final splitter: which axes, nested how (the operators do not matter here). -/
+inductive Sh
+  | leaf (k : Key)
+  | op (l r : Sh)
+  deriving Repr, Inhabited
+
+def Sh.leaves : Sh → List Key
+  | .leaf k => [k]
+  | .op l r => l.leaves ++ r.leaves
+
+def Sh.remove (drop : Key → Bool) : Sh → Option Sh
+  | .leaf k => if drop k then none else some (.leaf k)
+  | .op l r =>
+    match l.remove drop, r.remove drop with
+    | none, r' => r'
+    | l', none => l'
+    | some l', some r' => some (.op l' r')
+
+/-- The key list `State.splits` builds for a splitter of this shape: an unprocessed left operand of an already processed
+    right operand is put in front of ALL keys collected so far (D46). -/
+def Sh.keysAux : Sh → List Key → List Key
+  | .leaf _, ks => ks
+  | .op l r, ks =>
+    match l, r with
+    | .leaf a, .leaf b => ks ++ [a, b]
+    | .leaf a, r' => a :: r'.keysAux ks
+    | l', .leaf b => l'.keysAux ks ++ [b]
+    | l', r' => r'.keysAux (l'.keysAux ks)
+
+def Sh.keys : Sh → List Key
+  | .leaf k => [k]
+  | t => t.keysAux []
+
+def shStep (acc t : Option Sh) : Option Sh :=
+  match acc, t with
+  | none, t => t
+  | acc, none => acc
+  | some a, some b => some (.op a b)
+
 structure Info where
   name : Name
   ups : List (Name × List Fld)     -- stateful upstreams (non-empty final axes) with the fields they feed, field order
@@ -21,6 +60,9 @@ structure Info where
   comb : List Key                  -- combiner, resolved to axes
   fin : List Key
   hist : List Name
+  shape : Option Sh := none        -- nesting of the final splitter: upstream shapes in connection order, then the own part
+  misordered : Bool := false       -- the node has a combiner and `splits` lists the keys of what is left in another order
+                                   -- than the index tuples are nested (D46)
   deriving Inhabited, Repr
 
 abbrev Infos := List Info
@@ -54,7 +96,19 @@ def infoOf (is : Infos) (al : Spec.Aliases) (nd : Node) : Info × Spec.Aliases :
   let fin := (upAxes ++ own).filter fun a => !(comb.contains a)
   let hist := ups.foldl (init := if own.isEmpty then [] else [nd.name]) fun acc (u, _) =>
     unionNames acc ((is.get u).map (·.hist) |>.getD [])
-  ({ name := nd.name, ups := ups, upAxes := upAxes, own := own, comb := comb, fin := fin, hist := hist }, al)
+  let ownShape : Option Sh := match nd.split with
+    | .no => none
+    | .single f => some (.leaf (nd.name, f))
+    | .outer f g => some (.op (.leaf (nd.name, f)) (.leaf (nd.name, g)))
+    | .inner f g => some (.op (.leaf (nd.name, f)) (.leaf (nd.name, g)))
+  let upShapes : List (Option Sh) := ups.map fun p => (is.get p.1).bind (·.shape)
+  let full := (upShapes ++ [ownShape]).foldl shStep none
+  let shape := full.bind (Sh.remove fun k => comb.contains (Spec.resolve al k))
+  let misordered := !nd.comb.isEmpty && (match shape with
+    | some t => t.keys != t.leaves
+    | none => false)
+  ({ name := nd.name, ups := ups, upAxes := upAxes, own := own, comb := comb, fin := fin, hist := hist, shape := shape,
+     misordered := misordered }, al)
 
 def infos (nodes : List Node) : Infos × Spec.Aliases :=
   nodes.foldl (init := ([], [])) fun (is, al) nd =>
@@ -116,6 +170,7 @@ structure Flags where
   combAllPrev : Bool       -- D37
   partialZipFeeds : Bool   -- D29
   nameClash : Bool         -- D39
+  keyOrder : Bool          -- D46
   deriving Repr, DecidableEq
 
 def flags (w : Wf) : Flags :=
@@ -128,7 +183,8 @@ def flags (w : Wf) : Flags :=
     laterMulti := is.any laterMulti
     combAllPrev := is.any combAllPrev
     partialZipFeeds := w.nodes.any fun nd => partialZip al nd && hasConsumer w.nodes nd.name
-    nameClash := w.nodes.any nameClash }
+    nameClash := w.nodes.any nameClash
+    keyOrder := is.any (·.misordered) }
 
 /-- `NoSharedOrigin`: at every node the upstream states have pairwise disjoint origins. -/
 def noSharedOrigin (w : Wf) : Bool := !(flags w).shared
@@ -137,7 +193,7 @@ def noSharedOrigin (w : Wf) : Bool := !(flags w).shared
     with the nested-loop reference (a disagreement there is a VIOLATION, never a known finding). -/
 def inClass (w : Wf) : Bool :=
   let f := flags w
-  !f.shared && !f.laterMulti && !f.combAllPrev && !f.partialZipFeeds && !f.nameClash
+  !f.shared && !f.laterMulti && !f.combAllPrev && !f.partialZipFeeds && !f.nameClash && !f.keyOrder
 
 /-- Structural well-formedness = the generator's domain. -/
 def wellFormed (w : Wf) : Bool :=
@@ -159,7 +215,7 @@ def toJson (w : Wf) : Json :=
   let f := flags w
   Json.mkObj [("shared", f.shared), ("dropsRoot", f.dropsRoot), ("mergesInto", f.mergesInto),
     ("sharedComb", f.sharedComb), ("laterMulti", f.laterMulti), ("combAllPrev", f.combAllPrev),
-    ("partialZipFeeds", f.partialZipFeeds), ("nameClash", f.nameClash), ("inClass", inClass w),
+    ("partialZipFeeds", f.partialZipFeeds), ("nameClash", f.nameClash), ("keyOrder", f.keyOrder), ("inClass", inClass w),
     ("wellFormed", wellFormed w)]
 
 end PydraModel.WfState.Class
